@@ -168,6 +168,8 @@ def run(ctx):
             boxes = [(0, len(b), 8, b[4:8], 0)]
             if e["wrap"] == "parent":
                 boxes.append((8, len(b) - 8, 8, b[12:16], 1))
+            elif e["wrap"] == "sibling":
+                boxes.append((8, len(b) - 18, 8, b[12:16], 1))
             ms = g2_header_mutations(iid, b, boxes) + g3_count_inflation(iid, b, boxes)
             items += ms
             g6 += len(ms)
